@@ -204,7 +204,12 @@ def replay_edits(ne, np_, nc, edit_tokens):
     circ = new_circuit(ne, np_, nc)
     errs = []
     for t in edit_tokens:
-        errs.append(apply_edit(circ, parse_edit(t)))
+        ed = parse_edit(t)
+        if ed[0] == "C":
+            circ = circ.copy()
+            errs.append(None)
+        else:
+            errs.append(apply_edit(circ, ed))
     return circ, errs
 
 
@@ -731,8 +736,10 @@ def gen_edit(rng, circ, malformed=False, allow_measz=True, max_regs=6, label_poo
         return ("U",)
     if w < 0.90:
         return ("D",)
-    if w < 0.96:
+    if w < 0.95:
         return ("G",)
+    if w < 0.965:
+        return ("C",)
     t = rng.choice("epc")
     if regs[t] < max_regs:
         return ("E", t, 1)
